@@ -31,6 +31,16 @@ CHECKS = {
    "78 (125) types x nullable/non-nullable x every column of length <= 3 (4) x 22 physical layouts (sliced(p,q) for p in {1,3,8,9,63,64,65}, garbage under nulls, non-zero first offset, unused trailing values, sliced children) through FileWriter / StreamWriter / StreamEncoder / IpcDataGenerator -> FileReader (+projection) / FileDecoder / StreamReader / StreamDecoder, and FlightDataEncoder / batches_to_flight_data -> FlightRecordBatchStream / FlightDataDecoder / flight_data_to_batches; every option point within 2 (3) deviations (alignment, metadata version, compression, dictionary handling, Flight message size and dictionary handling); batch sequences of <= 3 batches incl. empty and zero-column batches, every projection, schema/field/custom metadata. Dictionary histories: BFS over 7 per-batch actions per dictionary field in 77 configurations; a writer error is accepted only where documented and is then required. Oracle: schema equality and batch-by-batch logical equality (hydrated / concatenated for Flight), validate_full on everything decoded.",
    "Trusted: the engine's own logical extraction. The tonic transport is not driven (encoder/decoder run as in-process streams).",
    "DESIGN.md section 4, C04; engine/vk-ipc/STATUS.md"),
+ "C05": ("vk-pqwrite", "exploration",
+   "deviation-bounded exhaustive product of (Arrow type, column, physical layout, 22 writer/reader configuration dimensions), every composition of rows into write()/flush() calls, and every interleaving of per-column writer operations (single thread and real threads under a baton scheduler), each written with ArrowWriter and read back",
+   "134 types (flat: ints, floats with NaN payloads and signed zeros, decimals 32/64/128/256, temporal, strings/binaries/views/fixed, Boolean, dictionaries, run-end; nesting family: list in all nullable combinations, large list, list view, fixed-size list, list of list, struct of list, list of struct, struct of struct, map) x every column of length <= N over the type alphabet (null at every level, empty list, list of nulls) x 1 + 46 + 996 configurations within 2 deviations (thorough: + 13,514 at 3) over writer version, dictionary on/off and page limit, every valid encoding, data page size / row count limits, write batch size, row group size, 7 codecs, statistics level, bloom filter, content-defined chunking, coerce_types, offset index, input layout (compact / sliced / garbage under nulls), reader batch size; histories: every composition of <= 5 rows into write() calls x every flush subset x empty writes; long columns around 8 / 128 / 1024 rows x 14 patterns x 6 encoder bases; parallel path: all interleavings of ArrowColumnWriter operations for <= 3 leaves and <= 2 batches. Oracle: schema (types, names, nullability) and rows equal (dictionary / run-end by denoted values, floats by bits), validate_full on every decoded batch, explicit flush = row-group boundary. 4.06 M cases quick, 63.4 M thorough.",
+   "Trusted: the engine's own extract. Documented representation changes (top-level RunEndEncoded flattened, coerce_types) are applied to the expectation, each citing the writer documentation. Encryption, custom parquet schema and nested run-end are outside.",
+   "DESIGN.md section 4, C05; engine/vk-pqwrite/STATUS.md"),
+ "C07": ("vk-pqwrite", "exploration",
+   "bounded exhaustive enumeration of (physical x logical type, value sequence, page layout, truncation length, statistics level, bloom settings) through the low-level and Arrow writers, every produced file re-opened and every statistic checked against the decoded pages with a sort-order model written from the format specification",
+   "28 physical x logical types through SerializedFileWriter (incl. variable-length BYTE_ARRAY decimals) x all sequences of <= 3 values over boundary alphabets (NaN payloads, +-0, +-inf, MIN/MAX, decimal sign-extension cases) x a 288-point configuration product; every string of <= 3 characters over {a, 0x7F, e-acute, euro, U+1D11E, U+D7FF, U+E000, U+10FFFF} and every <= 3-byte binary over {00,7F,80,FF} (and pairs) x 98 truncation configurations x 5 writer paths; bloom filters with 40-3000 distinct values; 59 Arrow types through ArrowWriter and StatisticsConverter. Oracle: chunk / page-header / column-index min <= v <= max for all non-null non-NaN values, exact flags attained, null / NaN / row counts exact, null_pages and boundary_order true, offset index delimits exactly the scanned pages, every written value passes Sbbf::check, StatisticsConverter outputs sound. 4.37 M cases quick, 35.3 M thorough.",
+   "Trusted: the model comparator per sort order. Nested columns other than List<Int32>, geospatial and size statistics are outside.",
+   "DESIGN.md section 4, C07; engine/vk-pqwrite/STATUS.md"),
  "C06": ("vk-pqread", "exploration",
    "bounded exhaustive enumeration of reader option points (deviation-bounded product with a fully multiplied selection x offset x limit core) over generated Parquet files against a reference computed on rows; exhaustive RowSelection algebra against sets of positions",
    "36 in-memory files (6 schemas incl. nested x 6 physical layouts: 1/3 unequal row groups, 1-3 rows per page, offset index on/off, dictionary on/off, v1/v2 pages; unique row ids) read under every configuration within 2 deviations of default (projection subsets, row-group lists incl. non-ascending, batch size, selection policy, page index, 9 predicate chains incl. predicate-only columns and null results, cache size 0) crossed with all 2^T row selections x 5 presentations x 6 offsets x 5 limits (reduced at 2 deviations); result rows, schema, batch bounds and validate_full compared with row-group choice -> selection -> predicates -> offset -> limit -> projection on Vec<row>. Algebra: all 127 selections over length <= 6 x 6 presentations, all ordered pairs: and_then, intersection, union, split_off(k), from_filters, from_consecutive_ranges, counts, iter, ==, scan_ranges against every page layout of <= 4 pages.",
